@@ -1104,6 +1104,9 @@ func init() {
 			}
 			return tuple{interpBytes(b), iface{}}
 		},
+		"time.runtimeNano": func(fr *frame, args []value) value { return int64(1) },
+		"time.now":         func(fr *frame, args []value) value { return tuple{int64(1700000000), int32(0), int64(1)} },
+		"time.runtimeNow":  func(fr *frame, args []value) value { return tuple{int64(1700000000), int32(0), int64(1)} },
 		"runtime.KeepAlive": extNoop,
 		"runtime.GC": extNoop,
 	}
